@@ -285,6 +285,7 @@ def sublattices(tier, seed=0):
             cs.append(_case(gid, pts, ns=ns, ni=ni, vals=vp))
     subs.append(dict(name='varcount', axes={'path': len(hp), 'n_state': [0, 1, 2], 'n_integrated': [0, 1, 2, 3], 'values': ['p', 'z']}, cases=cs))
     subs += tiny_sublattices()
+    subs += nano_sublattices()
     subs += even_grid_sublattices()
     subs += sequence_sublattices()
     # long histories: every 128th (1024th) case of everything above, gridded one after the other
@@ -295,6 +296,52 @@ def sublattices(tier, seed=0):
         name='sequence-long', axes={'start offset': nseq, 'stride': stride, 'gridder': ['same object']},
         cases=[dict(seq=flat[r::stride], rel='same') for r in range(nseq)],
     ))  # fmt: skip
+    return subs
+
+
+# scale axis continued to the resolution of float64: points are given directly as float64
+# radians (the oracle takes these floats as exact rationals), legs of 1e-8 ... 1e-13 degree
+# (1 mm ... 10 nm) and of 1, 2, 4 units in the last place of the coordinate
+NANO_LENGTHS = [1e-8, 1e-9, 1e-10, 1e-11, 1e-12, 1e-13, ('ulp', 1), ('ulp', 2), ('ulp', 4)]
+
+
+def _shift(x, spec, mult):
+    """x moved by mult * (leg length): a multiple of deg2rad(decade) or of ulps."""
+    if mult == 0:
+        return float(x)
+    if isinstance(spec, tuple):
+        n = round(abs(mult) * spec[1])
+        for _ in range(n):
+            x = np.nextafter(x, np.inf if mult > 0 else -np.inf)
+        return float(x)
+    return float(x + mult * np.deg2rad(spec))
+
+
+def nano_sublattices():
+    subs = []
+    for gid, (i, j) in (('deg1', (2, 2)), ('half2', (2, 2)), ('irreg', (3, 1))):
+        g = GRIDS[gid]
+        la, lo = grid_rad(gid)
+        c = (float(la[g['lat'].index(g['win_lat'][i])]), float(lo[g['lon'].index(g['win_lon'][j])]))
+        wl, wo = g['win_lat'], g['win_lon']
+        pre = [float(x) for x in (_rad([wl[1] + (wl[2] - wl[1]) // 2])[0], _rad([wo[1] + (wo[2] - wo[1]) // 2])[0])]
+        post = [float(x) for x in (_rad([wl[2] + (wl[3] - wl[2]) // 4])[0], _rad([wo[3] + 3 * (wo[4] - wo[3]) // 4])[0])]
+        inside = (c[0] + float(np.deg2rad(3e-4)), c[1] + float(np.deg2rad(3e-4)))
+        cs = []
+        for spec, dn, pl in itertools.product(NANO_LENGTHS, TINY_DIRS, TINY_PLACE):
+            s0, s1 = TINY_DIRS[dn]
+            base, m_a, m_b = {'mid': (c, -0.5, 0.5), 'quarter': (c, -0.25, 0.75), 'touch': (c, 0, 1), 'inside': (inside, 0, 1)}[pl]
+            if isinstance(spec, tuple) and pl in ('mid', 'quarter'):
+                m_a, m_b = (-1, 1) if pl == 'mid' else (-1, 3)
+            a = [_shift(base[0], spec, s0 * m_a), _shift(base[1], spec, s1 * m_a)]
+            b = [_shift(base[0], spec, s0 * m_b), _shift(base[1], spec, s1 * m_b)]
+            for x, y in ((a, b), (b, a)):
+                cs.append(dict(g=gid, rad=[x, y]))
+                cs.append(dict(g=gid, rad=[pre, x, y, post]))
+        subs.append(dict(
+            name=f'nano:{gid}', cases=cs,
+            axes={'length': [str(x) for x in NANO_LENGTHS], 'direction': list(TINY_DIRS), 'placement': TINY_PLACE, 'order': 2, 'embedding': ['alone', 'between two ordinary legs']},
+        ))  # fmt: skip
     return subs
 
 
@@ -490,6 +537,11 @@ def scaled_grid(gid, unit=None):
     """The grid with its edges expressed in 1/unit degree (unit is a multiple of the grid's own unit)."""
     unit = unit or grid_unit(gid)
     key = (gid, unit)
+    if unit == 'rad' and key not in _SCALED:
+        # the grid exactly as the code sees it: float64 radians, taken as exact rationals
+        # (no antimeridian handling in this mode: used away from +-180 only)
+        la, lo = grid_rad(gid)
+        _SCALED[key] = dict(lat=[Fraction(float(x)) for x in la], lon=[Fraction(float(x)) for x in lo], lat_f=la, lon_f=lo, unit='rad', half=None, full=None)
     if key not in _SCALED:
         g = GRIDS[gid]
         f = unit // grid_unit(gid)
@@ -520,6 +572,8 @@ def gridder(gid, gaxes, vg='std', fresh=False):
 
 def case_params(case):
     v = case.get('v', 'none')
+    if 'rad' in case:  # points given directly as float64 radians
+        case = dict(case, pts=[(Fraction(float(q[0])), Fraction(float(q[1]))) for q in case['rad']], u='rad')
     return dict(
         gid=case['g'], pts=[tuple(p) for p in case['pts']], v=v, gaxes=case.get('gaxes', v),
         alt=case.get('alt'), time=case.get('time'), ns=case.get('ns', 1), ni=case.get('ni', 1), vals=case.get('vals', 'p'),
@@ -533,8 +587,12 @@ def run_impl(p, ns=None, ni=None, fresh=False):
     ni = p['ni'] if ni is None else ni
     n = len(p['pts'])
     g = gridder(p['gid'], p['gaxes'], p['vg'], fresh)
-    lats = _rad([q[0] for q in p['pts']], p['unit'])
-    lons = _rad([q[1] for q in p['pts']], p['unit'])
+    if p['unit'] == 'rad':
+        lats = np.array([float(q[0]) for q in p['pts']])
+        lons = np.array([float(q[1]) for q in p['pts']])
+    else:
+        lats = _rad([q[0] for q in p['pts']], p['unit'])
+        lons = _rad([q[1] for q in p['pts']], p['unit'])
     alts = np.array(p['alt'], dtype=float) if p['v'] in ('alt', 'alt+time') else None
     times = np.array(p['time'], dtype=float) if p['v'] in ('time', 'alt+time') else None
     sv = tuple(np.array(STATE[j][:n], dtype=float) for j in range(ns))
@@ -564,11 +622,13 @@ def label_index(values, gr):
 
 
 def is_am(a, b, unit=MDEG):
-    return abs(b[1] - a[1]) > 180 * unit
+    return unit != 'rad' and abs(b[1] - a[1]) > 180 * unit
 
 
 def unwrap_end(a, b, unit=MDEG):
     """End point with longitude unwrapped so that the straight map line is the short way round."""
+    if unit == 'rad':
+        return b
     d = b[1] - a[1]
     if d > 180 * unit:
         return (b[0], b[1] - 360 * unit)
@@ -608,10 +668,14 @@ def _crossings(a, d, edges, half=None):
     return [Fraction(e - a, d) for e in es[bisect_right(es, lo) : bisect_left(es, hi)]]
 
 
-def _geo_len(lat_deg, lon_deg):
-    la = np.deg2rad(np.asarray(lat_deg, dtype=float))
-    lo = np.deg2rad(np.asarray(lon_deg, dtype=float))
+def _geo_len_rad(la, lo):
+    la = np.asarray(la, dtype=float)
+    lo = np.asarray(lo, dtype=float)
     return _GEOD.inv(lo[:-1], la[:-1], lo[1:], la[1:], radians=True)[2]
+
+
+def _geo_len(lat_deg, lon_deg):
+    return _geo_len_rad(np.deg2rad(np.asarray(lat_deg, dtype=float)), np.deg2rad(np.asarray(lon_deg, dtype=float)))
 
 
 def exact_segment(a, b, grid):
@@ -626,12 +690,21 @@ def exact_segment(a, b, grid):
     if d0 == 0 and d1 == 0:
         return dict(zero=True, L=0.0, pieces=[dict(lat=_axis_cells(a[0], glat), lon=_axis_cells(a[1], glon, half), raw=1.0, t0=0.0, t1=0.0, first=(a[0] == glat[0], a[1] == glon[0]))])
     ts = sorted(set([Fraction(0), Fraction(1)] + _crossings(a[0], d0, glat) + _crossings(a[1], d1, glon, half)))
-    lat = [float((a[0] + t * d0) / unit) for t in ts]
-    lon = [float((a[1] + t * d1) / unit) for t in ts]
-    lens = _geo_len(lat, lon)
-    L = float(_geo_len([lat[0], lat[-1]], [lon[0], lon[-1]])[0])
-    if L == 0.0:  # +180 -> -180 at one latitude: the same point written twice
-        return dict(zero=True, L=0.0, pieces=[dict(lat=_axis_cells(a[0], glat), lon=_axis_cells(a[1], glon, half), raw=1.0, t0=0.0, t1=0.0, first=(a[0] == glat[0], a[1] == glon[0]))])
+    if unit == 'rad':  # coordinates are the exact values of the float64 radians given to the code
+        lat = np.array([float(a[0] + t * d0) for t in ts])
+        lon = np.array([float(a[1] + t * d1) for t in ts])
+    else:
+        lat = np.deg2rad(np.array([float((a[0] + t * d0) / unit) for t in ts]))
+        lon = np.deg2rad(np.array([float((a[1] + t * d1) / unit) for t in ts]))
+    lens = _geo_len_rad(lat, lon)
+    L = float(_geo_len_rad([lat[0], lat[-1]], [lon[0], lon[-1]])[0])
+    if L == 0.0:
+        # +180 -> -180 at one latitude (the same point written twice), or two distinct float64
+        # positions whose geodesic distance underflows to exactly 0: a repeated point, which keeps
+        # its value once, in a cell touched by either of the two positions
+        la_ = tuple(sorted(set(_axis_cells(a[0], glat)) | set(_axis_cells(b[0], glat))))
+        lo_ = tuple(sorted(set(_axis_cells(a[1], glon, half)) | set(_axis_cells(b[1], glon, half))))
+        return dict(zero=True, L=0.0, pieces=[dict(lat=la_, lon=lo_, raw=1.0, t0=0.0, t1=0.0, first=(a[0] == glat[0], a[1] == glon[0]))])
     pieces = []
     for i in range(len(ts) - 1):
         tm = (ts[i] + ts[i + 1]) / 2
@@ -678,16 +751,23 @@ def dense_segment(a, b, grid, n=N_MICRO):
     """Brute-force binning: n micro-intervals of the straight map line, geodesic-length weights,
     midpoint binned by counting edges <= coordinate. Returns (ordered {cell: share}, L_curve)."""
     u = grid['unit']
-    glat = np.array([e / u for e in grid['lat']])
-    glon = np.array([e / u for e in grid['lon']])
-    a0, a1, b0, b1 = a[0] / u, a[1] / u, b[0] / u, b[1] / u
+    if u == 'rad':
+        glat, glon = grid['lat_f'], grid['lon_f']
+        a0, a1, b0, b1 = float(a[0]), float(a[1]), float(b[0]), float(b[1])
+        length = _geo_len_rad
+    else:
+        glat = np.array([e / u for e in grid['lat']])
+        glon = np.array([e / u for e in grid['lon']])
+        a0, a1, b0, b1 = a[0] / u, a[1] / u, b[0] / u, b[1] / u
+        length = _geo_len
     t = np.arange(n + 1) / n
-    w = _geo_len(a0 + t * (b0 - a0), a1 + t * (b1 - a1))
+    w = length(a0 + t * (b0 - a0), a1 + t * (b1 - a1))
     tot = float(w.sum())
     tm = (np.arange(n) + 0.5) / n
     latm = a0 + tm * (b0 - a0)
     lonm = a1 + tm * (b1 - a1)
-    lonm = np.where(lonm > 180.0, lonm - 360.0, np.where(lonm < -180.0, lonm + 360.0, lonm))
+    if u != 'rad':
+        lonm = np.where(lonm > 180.0, lonm - 360.0, np.where(lonm < -180.0, lonm + 360.0, lonm))
     ilat = _count_bin(latm, glat)
     ilon = _count_bin(lonm, glon)
     out = {}
@@ -765,7 +845,7 @@ def calibrate(tier='thorough'):
     worst = 0.0
     for s in sublattices(tier):
         for c in s['cases']:
-            if 'seq' in c:
+            if 'seq' in c or 'rad' in c:
                 continue
             pts = [tuple(q) for q in c['pts']]
             for a, b in zip(pts[:-1], pts[1:]):
@@ -981,6 +1061,14 @@ def evaluate(case, force_vals=None, fresh=False):
         bu = unwrap_end(a, b, p['unit'])
         segs.append(dict(a=a, b=bu, am=is_am(a, b, p['unit']), exact=exact_segment(a, bu, g)))
     return dict(p=p, tab=tab, segs=segs, grid=g, vgrids=VGRIDS[p['vg']], variant=variant, mutated=res['inputs_mutated'])
+
+
+def where_segment(p, k):
+    """Human-readable 'segment k a->b' with the coordinate unit."""
+    a, b = p['pts'][k], p['pts'][k + 1]
+    if p['unit'] == 'rad':
+        return f'segment {k} {[float(a[0]), float(a[1])]!r}->{[float(b[0]), float(b[1])]!r} (radians)'
+    return f'segment {k} {list(a)}->{list(b)} (1/{p["unit"]} deg)'
 
 
 def outcome_class(ev):
